@@ -43,6 +43,9 @@ def run(repo, res):
     n = api_model.apply(res, recs, {'prefix': 'C12-R1', 'shape': 'C12-R2', 'sorted': 'C12-R2', 'unique': 'C12-R2', 'ident': 'C12-R2',
                                     'pkg': 'C12-R2'}, ASSIST, assist.lineno)
     res.count('assist_scenarios', n, floor=120)
+    # what an import line proposes comes from Project.list_packages: interpreted on a modelled directory with the suffixes importlib
+    # uses (ABI-tagged extension modules included), every proposed name must be an identifier
+    api_model.apply(res, api_model.list_packages_model(repo), {'lp-ident': 'C12-R2'}, 'supp/project.py', 0)
     # a sink that removes duplicates makes the proposals duplicate-free whatever attr_list returns; otherwise every
     # attr_list implementation must return unique keys
     sink = [r for r in recs if r[0] == 'unique-sink']
